@@ -107,7 +107,7 @@ def matrix(tier, focus="general"):
         # C07/C08: valid-object bit builds only, with lookup probes after every forced collection
         runs = [r for r in runs if "vo_bit" in r.feats]
         for r in runs:
-            r.extra += ["--probes"]
+            r.extra += ["--probes", "--dense"]
         if tier != "quick":
             for p in PLANS:
                 runs.append(Run(p, feats=["vo_bit", "object_pinning"], name="vopin", programs=20,
